@@ -25,6 +25,7 @@ import (
 	_ "github.com/ozontech/file.d/plugin/action/discard"
 	_ "github.com/ozontech/file.d/plugin/action/join"
 	_ "github.com/ozontech/file.d/plugin/action/join_template"
+	_ "github.com/ozontech/file.d/plugin/action/modify"
 )
 
 // ---------------- monitoring plugins (boundary only) ----------------
@@ -213,7 +214,7 @@ func chainOf(cs *Case) []map[string]any {
 	case "k8s":
 		chain = append(chain, map[string]any{"type": "k8s-multiline", "split_event_size": cs.SplitEventSize, "offsets_file": "/nonexistent/offsets.yaml"})
 	}
-	return chain
+	return addPost(cs, chain)
 }
 
 func runCase(cs Case) (res Result) {
@@ -366,7 +367,9 @@ func runCase(cs Case) (res Result) {
 					open := openAfter[ln]
 					for {
 						dt := ticks.Load() - t0
-						if cs.Kind == "k8s" || open == nil {
+						if cs.Kind == "k8s" || open == nil || open.PostDrop {
+							// (a run that the action behind the joining action drops is never
+							// seen at the output: wait out the time-out instead)
 							if dt >= timeoutTicks+1 {
 								break
 							}
@@ -608,7 +611,18 @@ func judge(cs *Case, lines [][]*Line, outs []*OutRec, res *Result) {
 				}
 			}
 		} else {
-			v, err := viewEvent(r.JSON, path)
+			strip := ""
+			if postModifies(cs) {
+				strip = postMember
+			}
+			v, postVal, hadPost, err := viewEventStrip(r.JSON, path, strip)
+			if err == nil && strip != "" {
+				if !hadPost || postVal != "1" {
+					add(Viol{Sig: cs.Kind + ":following-action-not-applied", What: fmt.Sprintf("event %s reached the output without the member that the modify action behind the joining action adds (%s = \"1\")", v.ID, postMember), Witness: map[string]any{"json": short(r.JSON, 600)}})
+				} else {
+					st.add("post_modified_events", 1)
+				}
+			}
 			if err != nil {
 				add(Viol{Sig: cs.Kind + ":invalid-json-output", What: "the output event is not valid JSON: " + err.Error(), Witness: map[string]any{"json": short(r.JSON, 600)}})
 				unplaced++
@@ -680,6 +694,9 @@ func judge(cs *Case, lines [][]*Line, outs []*OutRec, res *Result) {
 	sort.Strings(res.Fingerprints)
 	res.Fingerprints = append(res.Fingerprints, fmt.Sprintf("case/%s/%s/procs=%d/single=%v/timeout=%d/max=%d/split=%d/pipemax=%d/cut=%v/pre=%v/streams=%d/src=%d/hold=%d/batch=%v/match=%s/shape=%s",
 		cs.Kind, cs.Family, cs.Procs, cs.SingleProc, cs.EventTimeoutMs, cs.JoinMax, cs.SplitEventSize, cs.PipeMax, cs.CutOff, cs.PreDiscard, cs.Streams, cs.Sources, cs.OutHold, cs.OutBatch, cs.Match, cs.RunShape))
+	if cs.Post != "" || cs.NonStrPct > 0 {
+		res.Fingerprints[len(res.Fingerprints)-1] += fmt.Sprintf("/post=%s/nonstr=%v", cs.Post, cs.NonStrPct > 0)
+	}
 	if strings.HasSuffix(cs.Name, "-0") {
 		var sample []any
 		for _, k := range keys[:1] {
